@@ -559,13 +559,15 @@ def _f_implies(ex, node, st):
     a = ex.cond(node.args[0], st)
     if a is False:
         return Val.const(True)
+    from .exprs import pop_guards, push_guard
+
     mark = len(st.pc)
     if a is not True:
-        st.pc.append(a)
+        push_guard(st, a)
     try:
         b = ex.cond(node.args[1], st)
     finally:
-        del st.pc[mark:]
+        pop_guards(st, mark)
     return bool_val(z_implies(a, b))
 
 
